@@ -140,6 +140,14 @@ func cmdRun(args []string) int {
 			spec.Params[k] = n
 		}
 	}
+	if strings.HasPrefix(spec.Name, "VerifC33_steps") || strings.HasPrefix(spec.Name, "VerifC32_roots") {
+		if nm, nr, err := generateBuilderHarness(); err != nil {
+			fmt.Fprintln(os.Stderr, "generate:", err)
+			return 2
+		} else {
+			fmt.Printf("generated builder harness: %d methods, %d roots\n", nm, nr)
+		}
+	}
 	p, err := loadProgram(args[0], []string{spec.Pkg})
 	if err != nil {
 		fmt.Fprintln(os.Stderr, "load:", err)
@@ -271,6 +279,19 @@ func cmdCheck(args []string) int {
 	var loadErr error
 	progs := map[string]*program{}
 	for _, hs := range specs {
+		if hs.spec.Gen == "builders" && len(extraOverlay) == 0 {
+			nm, nr, err := generateBuilderHarness()
+			if err != nil {
+				loadErr = err
+				break
+			}
+			fmt.Printf("generated builder harness: %d methods, %d roots\n", nm, nr)
+		}
+	}
+	for _, hs := range specs {
+		if loadErr != nil {
+			break
+		}
 		key := hs.dir
 		p, ok := progs[key]
 		if !ok {
